@@ -53,7 +53,7 @@ theorem findURLIndex_scheme18 (s r rest : Bytes) (hs2 : 2 ≤ s.length) (hs32 : 
   unfold findURLIndex
   simp only [h7, Bool.false_eq_true, if_false, htw]
   have e1 : (1 + s'.length == 1) = false := by rw [beq_eq_false_iff_ne]; omega
-  have e2 : ¬ (1 + s'.length > 33) := by omega
+  have e2 : ¬ (1 + s'.length > 32) := by omega
   have e3 : ¬ (1 + s'.length ≥ (c :: (s' ++ 58 :: (r ++ 62 :: rest))).length) := by simp; omega
   have e4 : (c :: (s' ++ 58 :: (r ++ 62 :: rest)))[1 + s'.length]? = some 58 := by
     rw [Nat.add_comm, List.getElem?_cons_succ]; simp
